@@ -399,6 +399,50 @@ def body_dist_run(env):
                        key='last_group_exceeds_dp_limit' if labels[i] == ng - 1 else None)
 
 
+def body_parametric_ids(env):
+    """Orificing.run_parametric (set-up glue; recycled-table path, reactor file replaced by a stub): the table that ties every
+    grouped assembly to the parametric data of its own type lists every assembly once, ordered by id, with the index of *its*
+    type -- distribute() and the response estimator pick pressure-drop limits and response curves through it.  Concrete
+    enumeration of loadings (types interleaved in the core, listing order opposite to core order); no symbolic dimension."""
+    import os
+    import shutil
+    import tempfile
+    names_in_core = env.params['core']            # type name per assembly id
+    to_group = env.params['to_group']
+    d = tempfile.mkdtemp(prefix='dassh-verif-c20.')
+    try:
+        os.makedirs(os.path.join(d, '_parametric'))
+        for nm in to_group:
+            np.savetxt(os.path.join(d, '_parametric', 'data_%s.csv' % nm), np.ones((3, 5)), delimiter=',')
+
+        class _Pow:
+            pin_power = np.ones((1, 2, 1))
+            duct_power = None
+            coolant_power = None
+            avg_power = np.ones(1)
+
+            def calculate_total_power(self):
+                return 1.0
+        asms = [StubSelf(name=nm, id=i, loc=(0, 0), power=_Pow(), total_power=1.0) for i, nm in enumerate(names_in_core)]
+        rx = StubSelf(assemblies=asms)
+        s_ = StubSelf(_bind=(om.Orificing, ['run_parametric']), _base_input=StubSelf(path=d), _recycle=True,
+                      orifice_input={'assemblies_to_group': list(to_group)}, _VARPOW_FILES=[])
+        old = om.dassh.reactor.load
+        om.dassh.reactor.load = lambda path: rx
+        try:
+            s_.run_parametric()
+        finally:
+            om.dassh.reactor.load = old
+    finally:
+        shutil.rmtree(d, ignore_errors=True)
+    tab = np.asarray(s_._parametric['asm_ids'])
+    want = [[i, to_group.index(nm)] for i, nm in enumerate(names_in_core) if nm in to_group]
+    env.holds('every grouped assembly is listed once, ordered by id', [int(x) for x in tab[:, 0]] == [w[0] for w in want],
+              key='parametric_table_mismatch')
+    env.holds('every listed assembly carries the index of its own type', [[int(x), int(y)] for x, y in tab] == want, key='parametric_table_mismatch')
+    env.holds('one parametric data table per grouped type', len(s_._parametric['data']) == len(to_group))
+
+
 def instances(tier):
     inst = []
     combos = [(2, 1), (2, 2), (3, 2), (3, 3)] if tier == 'quick' else [(2, 1), (2, 2), (3, 1), (3, 2), (3, 3), (4, 2), (4, 3)]
@@ -433,6 +477,10 @@ def instances(tier):
         for lim in (False, True):
             inst.append(dict(label='dist-run[part=%s,limit=%s]' % (p, lim), body=body_dist_run,
                              params={'part': p, 'lim': lim}, max_paths=100000, max_depth=14 if tier == 'quick' else 20))
+    for k, (core_, grp) in enumerate(((['inner', 'outer', 'inner', 'outer', 'refl', 'outer', 'inner'], ['inner', 'outer']),
+                                      (['inner', 'outer', 'outer', 'inner', 'outer', 'outer', 'inner'], ['outer', 'inner']),
+                                      (['a', 'b', 'c', 'c', 'b', 'a', 'b'], ['c', 'a', 'b']), (['a'] * 5, ['a']))):
+        inst.append(dict(label='parametric-ids[loading %d]' % k, body=body_parametric_ids, params={'core': core_, 'to_group': grp}, check_vacuity=False))
     return inst
 
 
